@@ -17,6 +17,10 @@ func replayMore(rp *ev.Replay) *ev.Failure {
 		}
 		f, _ := oracleC12(&c)
 		return f
+	case "C10/optspelling":
+		return oracleC10OptSpelling()
+	case "C12/optsweep":
+		return c12OptionsSweep()
 	case "C12/firstuse":
 		var c struct{ K int }
 		if err := json.Unmarshal(rp.Case, &c); err != nil {
@@ -63,6 +67,12 @@ func replayMore(rp *ev.Replay) *ev.Failure {
 			}
 		}
 		return nil
+	case "C09/gogocase":
+		var c GogoCase
+		if err := json.Unmarshal(rp.Case, &c); err != nil {
+			return ev.Failf("C09/replay", "bad case: %v", err)
+		}
+		return oracleC09Gogo(&c)
 	case "C09/racecold":
 		var c struct{ K int }
 		if err := json.Unmarshal(rp.Case, &c); err != nil {
